@@ -93,9 +93,10 @@ func collideRedeemFull() ([]kWrite, *redeemOutcome) {
 	}
 	bindKeys := func(ws map[string]string) []string {
 		var ks []string
-		pre := hex.EncodeToString(append(append([]byte{5}, utils.SideChainManagerContractAddress[:]...), []byte(scm.BIND_SIGN_INFO)...))
+		// whatever the namespace byte is: contract address + constant
+		pre := hex.EncodeToString(append(append([]byte{}, utils.SideChainManagerContractAddress[:]...), []byte(scm.BIND_SIGN_INFO)...))
 		for k := range ws {
-			if len(k) >= len(pre) && k[:len(pre)] == pre {
+			if len(k) >= 2+len(pre) && k[2:2+len(pre)] == pre {
 				ks = append(ks, k)
 			}
 		}
@@ -273,9 +274,9 @@ func keysCollide() {
 			putSandbox(w2.sb)
 			// a common key that is not one of the shared bookkeeping records (id counters are written by both on purpose)
 			ca := contractAddrs[rq.Contract]
-			want := hex.EncodeToString([]byte{5}) + hex.EncodeToString(ca[:])
+			want := hex.EncodeToString(ca[:])
 			for _, k := range intersect(k1, k2) {
-				if len(k) > len(want) && k[:len(want)] == want && cellsMatch(rq.Key, k[len(want):]) {
+				if len(k) > 2+len(want) && k[2:2+len(want)] == want && cellsMatch(rq.Key, k[2+len(want):]) {
 					rs.Common = append(rs.Common, k)
 				}
 			}
